@@ -169,6 +169,7 @@ def w_alias(_):
     layouts = [("C", lambda a: np.ascontiguousarray(a)), ("F", lambda a: np.asfortranarray(a)), ("T", lambda a: np.ascontiguousarray(a.T).T),
                ("T2", lambda a: a.T), ("rev", lambda a: a[::-1, ::-1]), ("strided", lambda a: np.repeat(a, 2, axis=1)[:, ::2]),
                ("col", lambda a: a.reshape(-1, 1)), ("0d", lambda a: np.array(a.flat[4])), ("int", lambda a: a.astype(np.int64)),
+               ("int32", lambda a: a.astype(np.int32)), ("int16", lambda a: a.astype(np.int16)), ("uint16", lambda a: a.astype(np.uint16)),
                ("f32", lambda a: a.astype(np.float32).astype(np.float64)), ("3d", lambda a: a.reshape(1, 2, 3))]
     for lname, mk in layouts:
         H = mk(base)
@@ -180,7 +181,7 @@ def w_alias(_):
                 acc.bad("isa:array_result_is_not_the_elementwise_map:%s" % lname, {"kind": "alias", "f": f.__name__})
         for f in fns2:
             V = mk(np.array([[0.3, 0.4, 0.5], [0.6, 0.7, 0.8]]) if f.__name__.startswith("mach") else spd)
-            if lname == "int":
+            if "int" in lname:
                 V = mk(spd) if not f.__name__.startswith("mach") else np.array([[0.3, 0.4, 0.5], [0.6, 0.7, 0.8]])
             got = np.asarray(f(V, H), dtype=float)
             want = np.vectorize(lambda v, h: float(f(float(v), float(h))))(np.asarray(V, dtype=float), np.asarray(H, dtype=float))
